@@ -29,6 +29,11 @@ pub fn label(l: &str) {
     })
 }
 
+/// stop recording statistics (used by the libFuzzer targets, which run for millions of iterations)
+pub fn freeze() {
+    STATS.with(|s| s.borrow_mut().frozen = true)
+}
+
 pub fn hash_str(s: &str) -> u64 {
     let mut h = std::collections::hash_map::DefaultHasher::new();
     s.hash(&mut h);
